@@ -171,13 +171,23 @@ Fixpoint st_get (k : string) (st : store) : option record :=
   | (k', v) :: r => if String.eqb k k' then Some v else st_get k r
   end.
 
-Fixpoint st_put (k : string) (v : record) (st : store) : store :=
+(* bucket.Put: replace the value of an existing key, otherwise insert in key order *)
+Fixpoint st_replace (k : string) (v : record) (st : store) : store :=
+  match st with
+  | [] => []
+  | (k', v') :: r => if String.eqb k k' then (k, v) :: r else (k', v') :: st_replace k v r
+  end.
+
+Fixpoint st_insert (k : string) (v : record) (st : store) : store :=
   match st with
   | [] => [(k, v)]
-  | (k', v') :: r =>
-      if String.eqb k k' then (k, v) :: r
-      else if String.ltb k k' then (k, v) :: (k', v') :: r
-      else (k', v') :: st_put k v r
+  | (k', v') :: r => if String.ltb k k' then (k, v) :: (k', v') :: r else (k', v') :: st_insert k v r
+  end.
+
+Definition st_put (k : string) (v : record) (st : store) : store :=
+  match st_get k st with
+  | Some _ => st_replace k v st
+  | None => st_insert k v st
   end.
 
 Definition st_del (k : string) (st : store) : store :=
